@@ -210,6 +210,9 @@ def run_one(case):
                 elif act['k'] == 'jump':
                     loop.jump_wall(act['delta'])
                     obs['jumps'].append(loop.wall_us())
+                elif act['k'] == 'stall':
+                    # the process is held up (GC pause, swapping ...): both clocks move on, nothing runs
+                    loop.vt_us += act['us']
 
         try:
             await edzed.run(driver(), catch_sigterm=False)
@@ -436,6 +439,19 @@ def gen_case(rng, tier):
         at = rng.choice(bounds) + rng.choice([-70 * US, -5 * US, 3 * US, 200 * US]) if bounds and rng.random() < 0.5 \
             else rng.randrange(1, dur_us)
         timeline.append(dict(k='jump', at=max(at, 1), delta=rng.choice([30, 31, 90, 600, 1799, 2700, 3599, 3600]) * US))
+    # a stall of 20..60 ms that makes an hourly wake-up late (never within 2 s of a boundary: the
+    # property says nothing about outputs while the process does not run)
+    if rng.random() < 0.35:
+        allb = sorted(set(bounds))
+        for _ in range(rng.choice([1, 1, 2])):
+            hrs = [h for h in range(1, dur_us // (3600 * US))]
+            if not hrs:
+                break
+            # offset of a full hour of the wall clock from the start
+            first_hour = (3600 * US - start_us % (3600 * US)) % (3600 * US)
+            at = first_hour + rng.choice(hrs) * 3600 * US - 10_000
+            if 0 < at < dur_us and all(abs(at - b) > 2 * US for b in allb):
+                timeline.append(dict(k='stall', at=at, us=rng.choice([20_000, 40_000, 60_000])))
     # samples: around every boundary, every 10 minutes, random
     pts = set()
     for b in bounds:
@@ -510,6 +526,13 @@ def directed():
     acts6 = [dict(k='reconfig', at=1800 * US, blk=0,
                   cfg=dict(t='ts', span=[[[2024, 5, 10, 21, 0, 0, 0], [2024, 5, 10, 23, 0, 0, 0]]]))]
     out.append(dict(start_us=st6, blocks=b6, latency=[], read_cost=1, timeline=_tl(st6, b6, acts6, 8)))
+    # a 40 ms stall makes one hourly wake-up late; the boundaries of the following hours must still be
+    # served within a few milliseconds
+    st7 = abs_of(dt.datetime(2024, 6, 15, 9, 30, 0))
+    b7 = [_td(times=[[[11, 15, 0, 0], [12, 15, 0, 0]], [[13, 15, 0, 0], [14, 15, 0, 0]], [[15, 15, 0, 0], [16, 15, 0, 0]],
+                     [[17, 15, 0, 0], [18, 15, 0, 0]]])]
+    out.append(dict(start_us=st7, blocks=b7, latency=[], read_cost=1,
+                    timeline=_tl(st7, b7, [dict(k='stall', at=1800 * US - 10_000, us=40_000)], 11)))
     return out
 
 
